@@ -28,11 +28,22 @@ DAG_STATES = [(), ("D>",), ("D<",)]
 def build_admg(g, lab):
     from pywhy_graphs import ADMG
     G = ADMG()
+    # node and edge attributes are part of an ADMG instance and must not influence any answer: a third of
+    # the graphs carry them (a shared node-attribute key, a weight on every other edge)
+    deco = (len(g.get("D", [])) + 2 * len(g.get("B", [])) + g["n"]) % 3 == 0
     for v in C.g_nodes(g):
-        G.add_node(lab(v))
+        if deco:
+            G.add_node(lab(v), kind="variable", idx=v)
+        else:
+            G.add_node(lab(v))
+    j = 0
     for k, nm in (("D", "directed"), ("B", "bidirected"), ("U", "undirected")):
         for a, b in g.get(k, []):
-            G.add_edge(lab(a), lab(b), edge_type=nm)
+            j += 1
+            if deco and j % 2:
+                G.add_edge(lab(a), lab(b), edge_type=nm, weight=0.5 * j)
+            else:
+                G.add_edge(lab(a), lab(b), edge_type=nm)
     return G
 
 
